@@ -42,8 +42,13 @@ def _worker(args):
                 out["diag"][dc["id"]] = "EXC:%s:%s" % (type(e).__name__, str(e)[:100])
     out["refuse"] = {}
     if refuse:
+        # all operators on ONE belief-base object; for a strict-mode case the object is first used in extended mode (where the base
+        # may well be acceptable): whatever was learnt about the object there must not soften the refusal in strict mode
+        shared = common.build_bb(case) if case["base"] else None
+        if shared is not None and not case["weakly"] and case.get("warmup"):
+            out["warmup"] = common.impl_infer(dict(case, queries=case["queries"][:1] or [(1, common.T, common.T)]), "system-z", "rc2", weakly=True, bb=shared)
         for cfg in REFUSE_CONFIGS:
-            out["refuse"][ops.cfg_name(cfg)] = common.impl_infer(case, cfg[0], cfg[1] or "rc2")
+            out["refuse"][ops.cfg_name(cfg)] = common.impl_infer(case, cfg[0], cfg[1] or "rc2", bb=shared)
     return out
 
 
@@ -103,7 +108,7 @@ def run(tier, seed, broken_proof=False):
             if nref < (25 if tier == "quick" else 150) or c["id"].startswith("edge"):
                 refuse = True
                 nref += 1
-        jobs.append((c, dcs, refuse))
+        jobs.append((dict(c, warmup=(rng.random() < 0.6)), dcs, refuse))
     dres = common.run_model_diag(list(dcases_all.values())) if dcases_all else {}
     ires = {}
     for out in ops.pool().imap_unordered(_worker, jobs, chunksize=2):
